@@ -25,7 +25,7 @@ theorem continueSeek_ok (W : World Node VH V) (hOK : W.OK) (ps : PageSet Node) (
     (h2 : 2 ≤ (under (r.key.take r.pos.depth) W.view).length) (page : MPage Node)
     (hgood : PGood W ps (sextetsOf (r.key.take r.pos.depth)) page) :
     ∃ ps' r', continueSeek W.env ps r (sextetsOf (r.key.take r.pos.depth)) page = .ok (ps', r') ∧ r'.key = r.key ∧
-      r'.ios = r.ios ∧ PSInv W ps' ∧ Ext ps ps' ∧ ReqOK W ps' r' none := by
+      r'.ios = r.ios ∧ PSInv W ps' ∧ Ext ps ps' ∧ ReqOK W ps' r' none ∧ r.pos.depth < r'.pos.depth := by
   have hd : r.pos.depth ≤ KEY_BITS := ht.wf.depthLe
   unfold continueSeek
   rw [hst]
@@ -40,8 +40,8 @@ theorem continueSeek_ok (W : World Node VH V) (hOK : W.OK) (ps : PageSet Node) (
   rw [hst] at hw
   rw [hw]
   cases hwok with
-  | @returned r' e1 e2 e3 e4 e5 =>
-    exact ⟨ps, r', rfl, e1, e2, hps, ext_refl ps, e3, e4, e5⟩
+  | @returned r' e1 e2 e3 e4 e5 e6 =>
+    exact ⟨ps, r', rfl, e1, e2, hps, ext_refl ps, ⟨e3, e4, e5⟩, e6⟩
   | @bottom r' e1 e2 ht' hst' hpid' hdep h2' =>
     simp only
     simp only at hpid' e2
@@ -84,7 +84,7 @@ theorem continueSeek_ok (W : World Node VH V) (hOK : W.OK) (ps : PageSet Node) (
     cases hel : page.isElided (loadBE (lp (r.key.take (r.pos.depth + 6)))) with
     | false =>
       simp only [Bool.false_eq_true, if_false]
-      refine ⟨ps, r', rfl, e1, e2, hps, ext_refl ps, ht', hpidok, ?_⟩
+      refine ⟨ps, r', rfl, e1, e2, hps, ext_refl ps, ⟨ht', hpidok, ?_⟩, by rw [hdep]; omega⟩
       unfold StOK
       rw [hst']
       simp only
@@ -95,7 +95,7 @@ theorem continueSeek_ok (W : World Node VH V) (hOK : W.OK) (ps : PageSet Node) (
       cases hcont : ps.contains (sextetsOf (r.key.take (r.pos.depth + 6))) with
       | true =>
         simp only [if_true]
-        refine ⟨ps, r', rfl, e1, e2, hps, ext_refl ps, ht', hpidok, ?_⟩
+        refine ⟨ps, r', rfl, e1, e2, hps, ext_refl ps, ⟨ht', hpidok, ?_⟩, by rw [hdep]; omega⟩
         unfold StOK
         rw [hst']
         simp only
@@ -121,12 +121,12 @@ theorem continueSeek_ok (W : World Node VH V) (hOK : W.OK) (ps : PageSet Node) (
             (BtIt.new W.env.primary W.env.secondary W.env.leaves r'.pos.raw stop)
             (neededOf W.env (BtIt.new W.env.primary W.env.secondary W.env.leaves r'.pos.raw stop)) []) } :=
           trail_congr ht' rfl rfl rfl
-        obtain ⟨ps', r'', g1, g2, g3, g4, g5, g6, g7, g8, g9⟩ := leavesCore_ok W hOK ps hps _ ht'' hpidok rfl
+        obtain ⟨ps', r'', g1, g2, g3, g4, g5, g6, g7, g8, g9, _⟩ := leavesCore_ok W hOK ps hps _ ht'' hpidok rfl
           ⟨by simp only; omega, by simp only; rw [hdep]; omega, by simp only; rw [hk6]; exact h2',
             by simp only; rw [hk6]; exact hc1 hel, hnode, hrange,
             by simp only [List.nil_append]; rw [btNew_spec _ _ _ _ _ hOK.prim hOK.sec hOK.leaves h0]⟩
           binv bsh (neededOf_new W r'.pos.raw stop)
-        refine ⟨ps', r'', g1, g2.trans e1, g6.trans e2, g7, g8, ?_, ?_, g9⟩
+        refine ⟨ps', r'', g1, g2.trans e1, g6.trans e2, g7, g8, ⟨?_, ?_, g9⟩, by rw [g3, hdep]; omega⟩
         · exact trail_congr ht' g2 g3 g5
         · unfold PidOK
           rw [g4, g3, g2]
